@@ -52,6 +52,10 @@ pub fn doc_with(field: &str, s: &str) -> MetadataWrapper {
             "inspect_run" => insp = insp.run(Command::from(vec!["sh".to_string(), s.to_string()])),
             _ => panic!("field {field}"),
         }
+        // the key table is signed content too: keys in every construction form
+        for k in crate::lifecycle::listed_key_forms() {
+            b = b.add_key(k);
+        }
         MetadataWrapper::Layout(b.add_step(step).add_inspect(insp).build().unwrap())
     }
 }
